@@ -334,8 +334,16 @@ def run_case (case, rep):
           return False
     # learn (the model of what this switch/controller pair has seen)
     seen[i].setdefault(s_src, set()).add(port)
+    # (a frame served from the table leaves the controller out - which excuses
+    #  a later stale delivery only if the controller had a chance to know the
+    #  port: a table hit on a port where the address had never been seen
+    #  before cannot come from a flow that was installed for it there)
+    fresh_port = port not in seen[i].get(s_src, ())
+    seen[i].setdefault(s_src, set()).add(port)
     last_port[i][s_src] = port
-    last_ctl[i][s_src] = rec["to_controller"]
+    last_ctl[i][s_src] = rec["to_controller"] or fresh_port
+    if fresh_port and not rec["to_controller"]:
+      rep.count("table_hits_from_a_port_the_source_was_never_seen_on")
     return True
 
   # ops whose gap is -1 arrive together with the op before them (same switch,
@@ -482,6 +490,32 @@ def gen_exhaustive (n, shard, nshards, nsw):
         yield dict(nsw=nsw, pool=pool, ops=bops + [ops[-1]])
 
 
+def gen_moves (rng, count):
+  """A host moves in the middle of a conversation whose flows are alive and
+  goes on sending the very same frames from its new port; then somebody
+  talks to it."""
+  for _ in range(count):
+    nsw = 1                       # (all four ports are host ports then)
+    pool = rng.choice([0, 1, 100])
+    a, b, c = rng.sample(range(4), 3)
+    sw_ = 0
+    pa, pb, pa2 = rng.sample([1, 2, 3, 4], 3)
+    variant = rng.choice(["plain", "plain", "ip", "tcp", "arp"])
+    size = rng.choice([50, 100])
+    ops = [[b, sw_, pb, rng.choice(["bcast", a]), variant, size, 0],
+           [a, sw_, pa, b, variant, size, 0]]
+    if rng.random() < 0.5: ops.append([b, sw_, pb, a, variant, size, 0])
+    ops.append([a, sw_, pa2, b, variant, size, rng.choice([0, 0, 5])])
+    talker = rng.choice([b, c])
+    ops.append([talker, sw_, pb if talker == b else rng.choice([p for p in (1, 2, 3, 4)
+                                                               if p not in (pb, pa, pa2)]),
+                a, rng.choice([variant, "plain", "icmp"]), size, rng.choice([0, 0, 5, 11])])
+    if rng.random() < 0.5:
+      ops.append([a, sw_, rng.choice([pa, pa2]), b, variant, size, 0])
+      ops.append([b, sw_, pb, a, variant, size, 0])
+    yield dict(nsw=nsw, pool=pool, ops=ops)
+
+
 def gen_random (rng, count, maxlen):
   for _ in range(count):
     nsw = rng.choice([1, 2, 2, 3])
@@ -517,17 +551,22 @@ def plan (tier, seed):
     return ([dict(mode="exh", n=2, nsw=1, shard=i, nshards=4) for i in range(4)] +
             [dict(mode="exh", n=2, nsw=2, shard=i, nshards=4) for i in range(4)] +
             [dict(mode="exh", n=3, nsw=2, shard=i, nshards=64) for i in range(4)] +
-            [dict(mode="rand", count=80, maxlen=60, sub=i) for i in range(4)])
+            [dict(mode="rand", count=80, maxlen=60, sub=i) for i in range(4)] +
+            [dict(mode="moves", count=150, sub=i) for i in range(2)])
   return ([dict(mode="exh", n=3, nsw=1, shard=i, nshards=8) for i in range(8)] +
           [dict(mode="exh", n=3, nsw=2, shard=i, nshards=8) for i in range(8)] +
           [dict(mode="exh", n=4, nsw=2, shard=i, nshards=64) for i in range(32)] +
           [dict(mode="exh", n=4, nsw=1, shard=i, nshards=32) for i in range(16)] +
-          [dict(mode="rand", count=1500, maxlen=200, sub=i) for i in range(32)])
+          [dict(mode="rand", count=1500, maxlen=200, sub=i) for i in range(32)] +
+          [dict(mode="moves", count=4000, sub=i) for i in range(8)])
 
 
 def run (spec, rep):
   if spec["mode"] == "exh":
     g = gen_exhaustive(spec["n"], spec["shard"], spec["nshards"], spec["nsw"])
+  elif spec["mode"] == "moves":
+    rng = random.Random("c11/moves/%d/%d" % (spec["seed"], spec["sub"]))
+    g = gen_moves(rng, spec["count"])
   else:
     rng = random.Random("c11/%d/%d" % (spec["seed"], spec["sub"]))
     g = gen_random(rng, spec["count"], spec["maxlen"])
